@@ -2,9 +2,13 @@ API = {"dir": "api", "pkgname": "api"}
 
 SPEC = {
     "go": [dict(API, files=["api/c08_rig_test.go", "api/c08_generic_test.go", "api/c08_fuzz_test.go", "api/c08_test.go"],
-                test="TestVerifC08", n_quick=1200, n_thorough=48000, shards_quick=6, shards_thorough=16),
-           dict(dir="consensus/raft", pkgname="raft", files=["raft/c08_logop_test.go"],
-                test="TestVerifC08LogOp", n_quick=260, n_thorough=6000, shards_quick=4, shards_thorough=12)],
+                test="TestVerifC08", n_quick=1500, n_thorough=60000, shards_quick=6, shards_thorough=16),
+           dict(dir="consensus/raft", pkgname="raft", files=["c08_pins_test.go.tmpl", "raft/c08_logop_test.go"],
+                test="TestVerifC08LogOp", n_quick=260, n_thorough=6000, shards_quick=4, shards_thorough=12),
+           dict(dir="state/dsstate", pkgname="dsstate", files=["c08_pins_test.go.tmpl", "dsstate/c08_snap_test.go"],
+                test="TestVerifC08Snap", n_quick=80, n_thorough=2000, shards_quick=2, shards_thorough=8),
+           dict(dir="cmdutils", pkgname="cmdutils", files=["c08_pins_test.go.tmpl", "cmdutils/c08_import_test.go"],
+                test="TestVerifC08Import", n_quick=80, n_thorough=2000, shards_quick=2, shards_thorough=8)],
     "rule": "generated values pushed through the real codecs, one stream per boundary: pb = pins of every type/depth (0..4 allocations "
             "and origins, metadata incl. empty and non-ASCII keys, CIDv0/v1 references, expiry zero / unix-zero / negative / sub-second / "
             "year 10000, int32/uint64 boundaries, invalid UTF-8, invalid peer IDs) through ProtoMarshal/ProtoUnmarshal; pbmsg = arbitrary "
